@@ -339,7 +339,8 @@ func (r *Run) stmtFuzz(ssn *framework.Session) {
 					rule := "rollback_not_restoring"
 					if s := r.c13Signature(); s != "" {
 						rule += s
-					} else if gpuCounterOnlyDiff(cps[i].dump, now) {
+					} else if gpuCounterOnlyDiff(stripDRA(cps[i].dump), stripDRA(now)) {
+						// (the claim lines of the view may differ as well: open DRA findings)
 						rule += "_shared_gpu_counters"
 					} else if unconsumedClaimOnlyDiff(cps[i].dump, now) {
 						rule += "_unconsumed_claim_deallocated"
@@ -390,7 +391,7 @@ func (r *Run) stmtFuzz(ssn *framework.Session) {
 				rule := "discard_not_restoring"
 				if s := r.c13Signature(); s != "" {
 					rule += s
-				} else if gpuCounterOnlyDiff(start, now) {
+				} else if gpuCounterOnlyDiff(stripDRA(start), stripDRA(now)) {
 					rule += "_shared_gpu_counters"
 				} else if unconsumedClaimOnlyDiff(start, now) {
 					rule += "_unconsumed_claim_deallocated"
@@ -690,4 +691,16 @@ func draViewVsAPI(r *Run, ssn *framework.Session) (out []string) {
 	}
 	sort.Strings(out)
 	return
+}
+
+// stripDRA removes the DRA lines (claims, allocated device set, task claim memory) from a dump.
+func stripDRA(d string) string {
+	var keep []string
+	for _, l := range strings.Split(d, "\n") {
+		if strings.HasPrefix(l, "claim ") || strings.HasPrefix(l, "allocated devices ") || strings.HasPrefix(l, "taskclaims ") {
+			continue
+		}
+		keep = append(keep, l)
+	}
+	return strings.Join(keep, "\n")
 }
